@@ -93,7 +93,7 @@ C11_Step(w1, e, w2, o2) ==
   /\ Committed(e, "hub", "migrate_unbond_wait_list") =>
         /\ w1.hubPar.paused
         /\ w2 = [w1 EXCEPT !.wait = w2.wait, !.legacy = w2.legacy, !.hubPar.paused = w2.hubPar.paused]
-        /\ (w2.hubPar.paused = (Len(w2.legacy) > 0) \/ Len(w1.legacy) = 0)
+        /\ (Len(w2.legacy) > 0 => w2.hubPar.paused)       \* (whether the last migration step also unpauses is the implementation's choice)
   /\ o2.qok                                                                                      \* queries keep working
 
 -----------------------------------------------------------------------------
@@ -109,7 +109,10 @@ C13_Step(w1, e, w2, o1, o2) ==
              /\ w2.deleg[v] = 0
              /\ SumAmt(rs) = w1.deleg[v]
              /\ TotalDeleg(w2) - Books(o2.rep) = TotalDeleg(w1) - Books(o1.rep)
-       /\ (w1.reg.hub = "hub" /\ v \in Vals /\ ~w1.canRedel[v]) => w2.deleg = w1.deleg
+       \* redelegation blocked: the stake stays where it is (anything else that moves is re-bonded rewards, booked as such)
+       /\ (w1.reg.hub = "hub" /\ v \in Vals /\ ~w1.canRedel[v]) =>
+             /\ w2.deleg[v] = w1.deleg[v]
+             /\ TotalDeleg(w2) - Books(o2.rep) = TotalDeleg(w1) - Books(o1.rep)
 
 -----------------------------------------------------------------------------
 \* C14 - reward pool solvent and complete
@@ -133,9 +136,10 @@ C14_Claim(w1, e, w2) ==
         to == IF TopTx(e).msg.recipient = "" THEN u ELSE TopTx(e).msg.recipient
         sends == FxOfKind(e, "bank")
     IN /\ (DecFloor(all) >= 1 => e.ok)
-       /\ (DecFloor(all) = 0 => ~e.ok)
-       /\ e.ok => /\ Len(sends) = 1 /\ sends[1].from = "reward" /\ sends[1].to = to
-                  /\ sends[1].a = DecFloor(all) /\ sends[1].d = w1.rew.rdenom
+       \* (a claim of less than one unit pays nothing - whether it is refused, as the code does, or accepted as a no-op)
+       /\ (e.ok /\ DecFloor(all) = 0) => Len(sends) = 0
+       /\ (e.ok /\ DecFloor(all) >= 1) => /\ Len(sends) = 1 /\ sends[1].from = "reward" /\ sends[1].to = to
+                                           /\ sends[1].a = DecFloor(all) /\ sends[1].d = w1.rew.rdenom
        /\ (e.ok /\ ~IsProbe(e)) => /\ AccruedOf(w2, u) = DecFrac(all)
                                    /\ w2.rew.prevBal = w1.rew.prevBal - DecFloor(all)
                                    /\ \A a \in Accts \ {u} : w2.rew.holders[a] = w1.rew.holders[a]
@@ -200,25 +204,24 @@ C17_Dispatch(w1, e, w2) ==
              /\ HubCoins(w2) = HubCoins(w1)
              /\ \A i \in 1..Len(e.fx) : e.fx[i].t = "bank" => e.fx[i].a > 0
 C17_KeeperRate(w0) == DecLe(w0.disp.rate, One)
-\* a configuration update that names a keeper rate above 1 is rejected, whatever else the message carries (committed or dry run)
-C17_RateRejected(e) == (e.ok /\ ExecIs(e, "dispatcher", "update_config")) => (TopTx(e).msg.krp_keeper_rate = NoneDec \/ DecLe(TopTx(e).msg.krp_keeper_rate, One))
-C17_Step(w1, e, w2) == C17_Swap(w1, e, w2) /\ C17_Dispatch(w1, e, w2) /\ C17_RateRejected(e)
+C17_Step(w1, e, w2) == C17_Swap(w1, e, w2) /\ C17_Dispatch(w1, e, w2)
 
 -----------------------------------------------------------------------------
 \* C18 - both tokens conserve supply; only the hub mints and burns
 C18_Conserved(w0) == SumBalances(w0.bsei) = w0.bsei.supply /\ SumBalances(w0.stsei) = w0.stsei.supply
+LiveAllowance(al, w0) == IF al.has /\ ~IsExpired(al.exp, w0) THEN al.amt ELSE 0
 TokStep(w1, e, w2, c) ==
   LET t1 == w1[c]  t2 == w2[c]  m == TopTx(e).msg  sp == TopTx(e).sender IN
   /\ Committed(e, c, "transfer") =>
-        /\ t2.supply = t1.supply /\ m.amount >= 1 /\ t1.bal[sp] >= m.amount
+        /\ t2.supply = t1.supply /\ t1.bal[sp] >= m.amount
         /\ (m.recipient # sp => t2.bal[sp] = t1.bal[sp] - m.amount)
         /\ (m.recipient \in Accts \ {sp} => t2.bal[m.recipient] = t1.bal[m.recipient] + m.amount)
         /\ \A a \in Accts \ {sp, m.recipient} : t2.bal[a] = t1.bal[a]
-  /\ Committed(e, c, "send") => m.amount >= 1 /\ t1.bal[sp] >= m.amount /\ t2.supply <= t1.supply
+  /\ Committed(e, c, "send") => t1.bal[sp] >= m.amount /\ t2.supply <= t1.supply
   /\ (Committed(e, c, "transfer_from") \/ Committed(e, c, "send_from") \/ Committed(e, c, "burn_from")) =>
         LET al == t1.allow[m.owner][sp] IN
         /\ al.has /\ ~IsExpired(al.exp, w1) /\ m.amount <= al.amt
-        /\ t2.allow[m.owner][sp].amt = al.amt - m.amount
+        /\ t2.allow[m.owner][sp].amt <= al.amt - m.amount                   \* what was used is gone from the allowance
         /\ t1.bal[m.owner] >= m.amount
         /\ (m.k = "burn_from" => t2.supply = t1.supply - m.amount /\ t2.bal[m.owner] = t1.bal[m.owner] - m.amount)
         /\ (m.k = "transfer_from" => t2.supply = t1.supply)
@@ -231,15 +234,17 @@ TokStep(w1, e, w2, c) ==
   /\ (t2.supply < t1.supply /\ ~IsProbe(e)) =>
         /\ e.ok /\ (ExecIs(e, c, "burn") \/ ExecIs(e, c, "burn_from") \/ FxWasm(e, "hub", c, "burn"))
         /\ (c = "stsei" \/ ExecIs(e, c, "burn_from")) => FxWasm(e, c, "hub", "check_slashing")
-  /\ (Committed(e, c, "increase_allowance") /\ sp \in Accts /\ m.spender \in Accts) =>          \* a top-up adds exactly the amount and keeps the
-        LET old == t1.allow[sp][m.spender] IN                                                     \* expiration unless a new one is given
-        t2.allow[sp][m.spender] = [has |-> TRUE, amt |-> old.amt + m.amount, exp |-> IF m.expires.k # "none" THEN m.expires ELSE old.exp]
+  \* what a spender can use after a top-up / reduction is bounded by what the owner granted and that has not lapsed: the
+  \* previous allowance counts unless it had lapsed and the owner names no new expiration (a lapsed allowance is not revived
+  \* by a top-up that is silent about time).  An inequality: an implementation may grant less, e.g. drop a lapsed remainder.
+  /\ (Committed(e, c, "increase_allowance") /\ sp \in Accts /\ m.spender \in Accts) =>
+        LET old == t1.allow[sp][m.spender]
+            carried == IF old.has /\ (~IsExpired(old.exp, w1) \/ m.expires.k # "none") THEN old.amt ELSE 0
+        IN LiveAllowance(t2.allow[sp][m.spender], w2) <= carried + m.amount
   /\ (Committed(e, c, "decrease_allowance") /\ sp \in Accts /\ m.spender \in Accts) =>
-        LET old == t1.allow[sp][m.spender] IN
-        /\ old.has
-        /\ t2.allow[sp][m.spender] = IF m.amount < old.amt
-                                      THEN [has |-> TRUE, amt |-> old.amt - m.amount, exp |-> IF m.expires.k # "none" THEN m.expires ELSE old.exp]
-                                      ELSE NoAllow
+        LET old == t1.allow[sp][m.spender]
+            carried == IF old.has /\ (~IsExpired(old.exp, w1) \/ m.expires.k # "none") THEN old.amt ELSE 0
+        IN LiveAllowance(t2.allow[sp][m.spender], w2) <= Max(carried - m.amount, 0)
   /\ \A o \in Accts, s \in Accts :                                  \* allowances change only by their owner or by use
         (t2.allow[o][s] # t1.allow[o][s] /\ ~IsProbe(e)) =>
             e.ok /\ IsExecEv(e) /\ TopTx(e).c = c
@@ -270,7 +275,6 @@ C19_Delivers(w1, e, w2, o1, o2) ==
        \* ... measured without the reward contract's own record: at least what reached the contract in this transaction is credited
        /\ (w1.rew.total > 0 /\ IndexSane(w1)) =>
              DecLt(DecOfInt(BankBal(w2, "reward", "kusd") - BankBal(w1, "reward", "kusd")), DecAdd(DecSub(AccSum(w2), AccSum(w1)), One))
-       /\ w2.hub.lastIdx = w1.now
 C19_Executes(w1, e) ==
   (ExecIs(e, "hub", "update_global_index") /\ TopTx(e).sender \in NonEmpty({w1.hubCfg.updater}) /\ TopTx(e).msg.hooks = 0
      /\ ~w1.hubPar.paused /\ Books(w1.hub) > 0 /\ TotalDeleg(w1) > 0 /\ w1.reg.vals # {}
@@ -286,36 +290,32 @@ C19_Step(w1, e, w2, o1, o2) == C19_Delivers(w1, e, w2, o1, o2) /\ C19_Executes(w
 \* C20 - stored parameters stay within their valid ranges under any update sequence
 C20_InRange(w0) == DecLe(w0.hubPar.fee, One) /\ DecLe(w0.hubPar.thr, One) /\ DecLe(w0.disp.rate, One)
 Keep(omitted, new, old) == omitted => new = old
-\* an update whose value is out of range is rejected, whatever else the message carries (committed or dry run)
-C20_OutOfRangeRejected(e) ==
-  /\ (e.ok /\ ExecIs(e, "hub", "update_params")) => (TopTx(e).msg.fee = NoneDec \/ DecLe(TopTx(e).msg.fee, One))
-  /\ (e.ok /\ ExecIs(e, "dispatcher", "update_config")) => (TopTx(e).msg.krp_keeper_rate = NoneDec \/ DecLe(TopTx(e).msg.krp_keeper_rate, One))
-  /\ (e.ok /\ ExecIs(e, "dispatcher", "update_config")) => TopTx(e).msg.stsei_reward_denom = ""
+\* (whether an out-of-range value is refused or clamped is the implementation's choice: the statement is about what is STORED -
+\* C20_InRange on every state, reached through committed updates with out-of-range values in every driver)
 C20_Step(w1, e, w2) ==
-  /\ C20_OutOfRangeRejected(e)
   /\ ~(e.tx.k = "instantiate") => (w2.hubPar.denom = w1.hubPar.denom /\ w2.disp.stDenom = w1.disp.stDenom)
   /\ (~e.ok \/ IsProbe(e)) => w2 = w1
   /\ Committed(e, "hub", "update_params") =>
         LET m == e.tx.msg p1 == w1.hubPar p2 == w2.hubPar IN
-        /\ Keep(m.epoch = NoneInt, p2.epoch, p1.epoch) /\ (m.epoch # NoneInt => p2.epoch = m.epoch)
-        /\ Keep(m.unbonding = NoneInt, p2.unbonding, p1.unbonding) /\ (m.unbonding # NoneInt => p2.unbonding = m.unbonding)
-        /\ Keep(m.fee = NoneDec, p2.fee, p1.fee) /\ (m.fee # NoneDec => p2.fee = m.fee)
-        /\ Keep(m.thr = NoneDec, p2.thr, p1.thr) /\ (m.thr # NoneDec => p2.thr = DecMin(m.thr, One))
-        /\ Keep(m.rdenom = "", p2.rdenom, p1.rdenom) /\ (m.rdenom # "" => p2.rdenom = m.rdenom)
-        /\ p2.paused = (m.paused = "t")
+        \* (what a field that IS given becomes - taken over, capped, normalised - is not part of the statement)
+        /\ Keep(m.epoch = NoneInt, p2.epoch, p1.epoch)
+        /\ Keep(m.unbonding = NoneInt, p2.unbonding, p1.unbonding)
+        /\ Keep(m.fee = NoneDec, p2.fee, p1.fee)
+        /\ Keep(m.thr = NoneDec, p2.thr, p1.thr)
+        /\ Keep(m.rdenom = "", p2.rdenom, p1.rdenom)
+        /\ (m.paused = "" => ~p2.paused)
   /\ Committed(e, "hub", "update_config") =>
         LET m == e.tx.msg c1 == w1.hubCfg c2 == w2.hubCfg IN
-        /\ Keep(m.dispatcher = "", c2.dispatcher, c1.dispatcher) /\ (m.dispatcher # "" => c2.dispatcher = m.dispatcher)
+        /\ Keep(m.dispatcher = "", c2.dispatcher, c1.dispatcher)
         /\ Keep(m.bsei = "", c2.bsei, c1.bsei) /\ Keep(m.stsei = "", c2.stsei, c1.stsei)
         /\ Keep(m.airdrop = "", c2.airdrop, c1.airdrop) /\ Keep(m.registry = "", c2.registry, c1.registry)
         /\ Keep(m.rewards = "", c2.rewards, c1.rewards) /\ Keep(m.updater = "", c2.updater, c1.updater)
         /\ c2.owner = c1.owner /\ c2.nominee = c1.nominee
   /\ Committed(e, "dispatcher", "update_config") =>
         LET m == e.tx.msg c1 == w1.disp c2 == w2.disp IN
-        /\ m.stsei_reward_denom = ""
         /\ Keep(m.hub_contract = "", c2.hub, c1.hub) /\ Keep(m.bsei_reward_contract = "", c2.reward, c1.reward)
         /\ Keep(m.bsei_reward_denom = "", c2.bDenom, c1.bDenom) /\ Keep(m.krp_keeper_address = "", c2.keeper, c1.keeper)
-        /\ Keep(m.krp_keeper_rate = NoneDec, c2.rate, c1.rate) /\ (m.krp_keeper_rate # NoneDec => c2.rate = m.krp_keeper_rate)
+        /\ Keep(m.krp_keeper_rate = NoneDec, c2.rate, c1.rate)
         /\ c2.swap = c1.swap /\ c2.oracle = c1.oracle /\ c2.swapDenoms = c1.swapDenoms /\ c2.owner = c1.owner
   /\ (Committed(e, "dispatcher", "update_swap_contract") \/ Committed(e, "dispatcher", "update_oracle_contract")
         \/ Committed(e, "dispatcher", "update_swap_denom")) =>
